@@ -276,9 +276,15 @@ func WriteKeyRegistry(reg *KeyRegistry, opt KeyRegistryOptions) error {
 	if err = fp.Close(); err != nil {
 		return y.Wrapf(err, "Error while closing tmp file in WriteKeyRegistry")
 	}
+	if y.VerifEnabled {
+		y.VerifEvent("fs.create", tmpPath)
+	}
 	// Rename to the original file.
 	if err = os.Rename(tmpPath, filepath.Join(opt.Dir, KeyRegistryFileName)); err != nil {
 		return y.Wrapf(err, "Error while renaming file in WriteKeyRegistry")
+	}
+	if y.VerifEnabled {
+		y.VerifEvent("fs.rename", tmpPath, filepath.Join(opt.Dir, KeyRegistryFileName))
 	}
 	// Sync Dir.
 	return syncDir(opt.Dir)
